@@ -122,6 +122,17 @@ def handle (d : DS) : List String → DS × String
       let (h, t) := h.fresh
       ({ h := h.setT t { data := a, const := c }, vars := insert name t d.vars }, "ok")
     | _, _, _, _ => (d, "bad-op")
+  | ["leaf", name, sh, data, c, "F"] =>
+    match name.toNat?, parseShape sh, intList? data, s2b? c with
+    | some name, some sh, some data, some c =>
+      let (h, a) := d.h.newArrF (sh, data)
+      let (h, t) := h.fresh
+      ({ h := h.setT t { data := a, const := c }, vars := insert name t d.vars }, "ok")
+    | _, _, _, _ => (d, "bad-op")
+  | ["kstrides", sh, st] =>
+    match parseShape sh, intList? st with
+    | some sh, some st => (d, showInts (korderStrides sh st))
+    | _, _ => (d, "bad-op")
   | ["bin", name, k, a, b, c] =>
     match name.toNat?, parseBin k, parseOperand d a, parseOperand d b, parseConst c with
     | some name, some k, some a, some b, some c => bind d name (opStep d.h k [a, b] c)
